@@ -851,6 +851,12 @@ namespace chaiscript {
               m_match_stack.push_back(make_node<eval::Constant_AST_Node<Tracer>>(match, start.line, start.col, std::move(bv)));
               return true;
             } else {
+              // not a floating point literal; Float_() may have stopped inside a malformed one (`1.5e+`, `.1e`),
+              // so the integer is read again from the start: its digits and suffix, nothing else
+              m_position = start;
+              while (m_position.has_more() && char_in_alphabet(*m_position, detail::int_alphabet)) {
+                ++m_position;
+              }
               IntSuffix_();
               auto match = Position::str(start, m_position);
               if (!match.empty() && (match[0] == '0')) {
@@ -865,7 +871,8 @@ namespace chaiscript {
               return true;
             }
           } catch (const std::invalid_argument &) {
-            // error parsing number passed in to buildFloat/buildInt
+            // error parsing number passed in to buildFloat/buildInt: nothing was matched, so nothing is consumed
+            m_position = start;
             return false;
           }
         } else {
